@@ -14,6 +14,8 @@ pub struct SgenCfg {
     pub decorations: bool,
     pub defaults: bool,
     pub namespaces: bool,
+    /// only the logical types on int and long (no extra choice is drawn; the pick is narrowed)
+    pub logical_numeric_only: bool,
     /// let different types share a simple name in different namespaces (no extra choice is drawn when off)
     pub same_simple_names: bool,
     pub recursion: bool,
@@ -46,6 +48,7 @@ impl SgenCfg {
             decorations: false,
             defaults: false,
             namespaces: true,
+            logical_numeric_only: false,
             same_simple_names: false,
             recursion: true,
             refs: true,
@@ -249,7 +252,7 @@ impl<'c, 'd> Gen<'c, 'd> {
     }
 
     fn logical(&mut self, enclosing: &str) -> SNode {
-        match self.c.pick(16) {
+        match self.c.pick(if self.cfg.logical_numeric_only { 9 } else { 16 }) {
             0 => SNode::prim(SType::Int).with_logical(Logical::Date),
             1 => SNode::prim(SType::Int).with_logical(Logical::TimeMillis),
             2 => SNode::prim(SType::Long).with_logical(Logical::TimeMicros),
